@@ -418,7 +418,9 @@ fn mk_handler(
     }
 }
 
-/// req_new <cfg: B, max_conns, vectored, preselect> <rscript> <wscript> <wire> <script>
+/// req_new <cfg: B, max_conns, vectored, preselect, leak> <rscript> <wscript> <wire> <script>
+/// (leak = 1: if the request is writeable when the handler returns, the application keeps one StreamWriter alive across
+/// Request::close, which must then refuse - after its reading part, before writing anything - with an error of kind Other)
 /// The embedding application does what Token::run does, by hand, through the public constructors: it parses the preamble with a
 /// request::Parser (greedy reads, replies written at once), converts it, optionally selects a stream on the stream::Parser
 /// (preselect != 0) BEFORE wrapping it with the public `Request::new`, runs the handler script, and calls `Request::close` itself.
@@ -453,13 +455,19 @@ fn req_new(a: &Args) -> Args {
         let waker = Waker::from(flag.clone());
         let mut cx = Context::from_waker(&waker);
         let (ev2, flag2, world2) = (ev.clone(), flag.clone(), world.clone());
+        let leak = g(4) != 0;
         let mut task: Pin<Box<dyn Future<Output = u128> + '_>> = Box::pin(async move {
             let mut req = Request::new(sp, Reader(world2.clone()), Writer(world2.clone()));
             ev2.lock().expect("ev").push(vec![300, u128::from(req.is_writeable()), req.active_stream().map_or(0, |t| u128::from(u8::from(t)))]);
             match run_script(&mut req, script, ev2.clone(), flag2).await {
-                Ok(status) => match req.close(status).await {
-                    Ok(_) => 10,
-                    Err(e) => 20 + errkind(&e),
+                Ok(status) => {
+                    let leaked = if leak && req.is_writeable() { Some(req.output_stream(RecordType::Stdout)) } else { None };
+                    let code = match req.close(status).await {
+                        Ok(_) => 10,
+                        Err(e) => 20 + errkind(&e),
+                    };
+                    drop(leaked);
+                    code
                 },
                 Err(e) => 40 + errkind(&e),
             }
